@@ -30,6 +30,12 @@ CPP_KEYS = [
     for c in ("vector", "minivec")
     # the c++17-pmr shorthand sets the container options as a unit (C13): a user container does not apply there
     if not (s == "c++17-pmr" and c == "minivec")
+] + [
+    # allocator that is not default constructible + container built from (max size, allocator), C++14 built-in variant;
+    # compiled against the stand-in for the CETL headers (lab.STANDIN); types hit by the two known C06 findings are skipped
+    f"cpp|cetl++14-17|{e}|{a}|cetl"
+    for e in ("any", "little", "big")
+    for a in (0, 1)
 ]
 
 
@@ -91,6 +97,12 @@ def anchor_universe() -> dict:
                              # fixed-size storage whose elements own heap memory (the built-in C++14 variant must destroy it), and a plain one
                              fld("f", {"t": "farr", "elem": ref("Inner"), "n": 2}), fld("g", {"t": "farr", "elem": prim("float", 32), "n": 3})], union=True))
     types.append(td("Outer", [fld("f0", prim("uint", 5)), fld("us", {"t": "varr", "elem": ref("Uni"), "cap": 3, "incl": True}), fld("ins", {"t": "farr", "elem": ref("Inner"), "n": 2}), fld("u", ref("Uni")), fld("bits", {"t": "varr", "elem": {"t": "bool"}, "cap": 11, "incl": True})], sealed=False, extent_bits=8192))
+    # the same shapes without members that need a default constructor: usable by flavours whose allocator is not default
+    # constructible (unions of primitives / primitive arrays, nested composites and variable-length arrays of composites and unions)
+    types.append(td("UniP", [fld("a", prim("uint", 8)), fld("b", {"t": "bool"}), fld("c", prim("float", 16)), fld("g", {"t": "farr", "elem": prim("float", 32), "n": 3}), fld("h", prim("int", 33)),
+                              fld("k", {"t": "farr", "elem": {"t": "bool"}, "n": 11})], union=True))
+    types.append(td("OuterP", [fld("f0", prim("uint", 5)), fld("ins", {"t": "varr", "elem": ref("Inner"), "cap": 3, "incl": True}), fld("one", ref("Inner")), fld("us", {"t": "varr", "elem": ref("UniP"), "cap": 3, "incl": True}),
+                                fld("u", ref("UniP")), fld("bits", {"t": "varr", "elem": {"t": "bool"}, "cap": 11, "incl": True}), fld("w", {"t": "varr", "elem": prim("int", 33), "cap": 2, "incl": True})], sealed=False, extent_bits=8192))
     consts = [
         ("float", 64, "T64A", "1e-320"), ("float", 64, "T64B", "5e-324"), ("float", 64, "T64C", "2.2250738585072014e-308"), ("float", 64, "T64D", "1.7976931348623157e308"),
         ("float", 64, "T64E", "1/3"), ("float", 32, "T32A", "1e-45"), ("float", 32, "T32B", "340282346638528859811704183484516925440.0"), ("float", 32, "T32C", "16777217.0"),
@@ -154,18 +166,23 @@ def job_strategy(draw, spec: dict, fixed_universe: typing.Optional[dict] = None)
         ctypes = L.ctypes
         n_c, n_cpp = spec.get("n_c", 2), spec.get("n_cpp", 2)
         c_pool = [k for k in C_KEYS if spec.get("c_filter", lambda k: True)(k)]
-        cpp_pool = [k for k in CPP_KEYS if spec.get("cpp_filter", lambda k: True)(k)]
+        cpp_pool = [k for k in CPP_KEYS if spec.get("cpp_filter", lambda k: True)(k) and k.split("|")[1] not in lab.ALLOC_STDS]
+        alloc_pool = [k for k in CPP_KEYS if spec.get("cpp_filter", lambda k: True)(k) and k.split("|")[1] in lab.ALLOC_STDS]
         targets = []
         if n_c:
             targets += draw(st.lists(st.sampled_from(c_pool), min_size=n_c, max_size=n_c, unique=True))
         if n_cpp:
             targets += draw(st.lists(st.sampled_from(cpp_pool), min_size=n_cpp, max_size=n_cpp, unique=True))
+            # every other universe is also built for the flavour without a default-constructible allocator (if at least one of
+            # its types compiles there)
+            if alloc_pool and fixed_universe is None and draw(st.booleans()) and len(L.alloc_excluded()) < len(ctypes):
+                targets.append(draw(st.sampled_from(alloc_pool)))
         if fixed_universe is not None:
             # the anchor is always run on the flavours whose code differs structurally
-            for k in ("cpp|c++17-pmr|any|0|vector", "cpp|c++14|little|1|vector", "c|little|1|0", "c|any|0|0"):
+            for k in ("cpp|c++17-pmr|any|0|vector", "cpp|c++14|little|1|vector", "cpp|cetl++14-17|any|1|cetl", "c|little|1|0", "c|any|0|0"):
                 if k.split("|")[0] == "c" and not n_c or k.split("|")[0] == "cpp" and not n_cpp:
                     continue
-                if k not in targets and spec.get("c_filter", lambda k: True)(k):
+                if k not in targets and spec.get("c_filter" if k.startswith("c|") else "cpp_filter", lambda k: True)(k):
                     targets.append(k)
         if spec.get("py", True):
             targets.append("py")
@@ -347,7 +364,13 @@ def execute(jobs: typing.List[dict], sanitize: bool = True, workers: int = 16, c
     def run_one(ji: int, key: str):
         job, L = jobs[ji], labs[ji]
         idx, cmds = [], []
+        alloc_flavour = key.startswith("cpp|") and key.split("|")[1] in lab.ALLOC_STDS
+        excluded = L.alloc_excluded() if alloc_flavour else set()
         for ci, c in enumerate(job["cases"]):
+            if alloc_flavour and (c["ti"] in excluded or (c["op"] == "S" and c["dom"] == "invalid")):
+                # types that do not compile in this flavour (known C06 findings); objects holding more elements than the
+                # capacity cannot be built at all: the flavour's container enforces its run-time maximum
+                continue
             cmd = command_for(c, key, reduced=bool(key.startswith("c|") and key.endswith("|1") and job.get("cap_overrides") and cap_overrides_fn))
             if cmd is not None:
                 idx.append(ci)
